@@ -49,6 +49,10 @@ Qcd(s) ==
 \* sub-band i (1-based, codestream order) of an NL-level decomposition: <<kind, level>>; kind 0 LL, 1 HL/LH, 2 HH
 Band(i, NL) == IF i = 1 THEN <<0, NL>> ELSE LET j == i - 2 IN <<IF j % 3 = 2 THEN 2 ELSE 1, NL - (j \div 3)>>
 
+\* magnitude bit-planes M_b = G + e_b - 1 of sub-band i (E.1): the largest over the sub-bands
+BandExp(q, NL, i) == IF q.style = 1 /\ i > 1 THEN q.e[1] - (NL - Band(i, NL)[2]) ELSE q.e[i]
+MaxPlanes(q, NL) == LET S == {q.guard + BandExp(q, NL, i) - 1 : i \in 1..(3 * NL + 1)} IN CHOOSE m \in S : \A x \in S : x <= m
+
 \* worst-case sample error (1/256 units) of one component coded with NL levels at precision P
 RECURSIVE CompBound(_, _, _, _, _)
 CompBound(q, NL, P, i, acc) ==
